@@ -108,6 +108,9 @@ var sinks = []sinkSpec{
 	{"json.roundtrip", "", func(v string) string {
 		return "echo json_encode(json_decode(json_encode(" + v + "), true));"
 	}, "ao"},
+	{"json.roundtrip.object", "", func(v string) string {
+		return "echo json_encode(json_decode(json_encode(" + v + ")));"
+	}, "ao"},
 	{"serialize.roundtrip", "", func(v string) string {
 		return feKV("unserialize(serialize(" + v + "))")
 	}, "ao"},
